@@ -569,6 +569,8 @@ class World:
         self.ended: set = set()
         self.harness_ctx: Any = None
         self.last_progress_us = 0
+        self.last_scripted_us = max([m.get("send_at_us", 0) for m in script.get("messages", [])] +
+                                    [op.get("at_us", 0) for op in script.get("ops", [])] + [0])
 
     # ---- bookkeeping
     def fired(self, kind: str, n: int = 1) -> None:
@@ -1194,7 +1196,9 @@ async def _settle(world: World, slack_us: int) -> bool:
     while True:
         if _idle(world):
             return True
-        remaining = world.last_progress_us + slack_us - world.loop.now_us
+        # scripted sends / ops that lie in the future are progress still to come
+        horizon = max(world.last_progress_us, world.last_scripted_us if (world.pending_sends or world.ops_pending) else 0)
+        remaining = horizon + slack_us - world.loop.now_us
         if remaining <= 0:
             return False
         world.changed.clear()
